@@ -516,3 +516,901 @@ Proof.
     destruct ((ce <? length vals)%nat && isg (nth ce vals 0)) eqn:Egc; simfin ce Hun.
 Qed.
 End Sim.
+(* ---------- iterating the simulation over the whole event list ---------- *)
+Section SimLoop.
+Variable isg : Z -> bool.
+Variables (evt vals : list Z).
+
+Fixpoint aloop (a : ast) (ce : nat) (rest : list Z) : ast :=
+  match rest with
+  | [] => a
+  | cd :: t => aloop (astep isg a cd (nth ce vals 0) (ce <? length vals)%nat) (S ce) t
+  end.
+
+Fixpoint nondecrZ (x : Z) (l : list Z) : Prop :=
+  match l with [] => True | y :: t => x <= y /\ nondecrZ y t end.
+
+Lemma skipn_cons_inv {A} (l : list A) : forall ce x t d, skipn ce l = x :: t ->
+  nth ce l d = x /\ skipn (S ce) l = t /\ (ce < length l)%nat.
+Proof.
+  induction l as [|y l IH]; intros [|ce] x t d H; simpl in *; try discriminate.
+  - inversion H; subst. repeat split. lia.
+  - destruct (IH ce x t d H) as [H1 [H2 H3]]. repeat split; auto. lia.
+Qed.
+
+Lemma sim_loop : forall rest ce s a, R evt vals ce s a -> skipn ce evt = rest -> (ce <= length evt)%nat ->
+  (length vals + 1 = length evt)%nat -> nondecrZ (apd a) rest ->
+  R evt vals (length evt) (gen_loop (map isg vals) s ce rest) (aloop a ce rest).
+Proof.
+  induction rest as [|cd t IH]; intros ce s a HR Hsk Hce Hlen Hnd; simpl.
+  - assert (length evt <= ce)%nat.
+    { pose proof (skipn_length ce evt) as Hl. rewrite Hsk in Hl. simpl in Hl. lia. }
+    assert (ce = length evt) by lia. subst ce. exact HR.
+  - destruct (skipn_cons_inv evt ce cd t 0 Hsk) as [Hnth [Hsk' Hlt]].
+    destruct Hnd as [Hle Hnd].
+    pose proof (sim_step isg evt vals ce s a HR Hlt Hlen ltac:(rewrite Hnth; exact Hle)) as HR'.
+    rewrite Hnth in HR'.
+    apply IH; auto.
+    destruct HR' as [_ [_ [_ [_ [_ [_ [_ [Hes _]]]]]]]].
+    replace (S ce - 1)%nat with ce in Hes by lia. rewrite Hnth in Hes. rewrite <- Hes. exact Hnd.
+Qed.
+
+(* the abstract loop indexed by event position = the fold over (dump, value) pairs + terminator *)
+Lemma aloop_arun N : forall l ce a, skipn ce vals = map snd l ->
+  aloop a ce (map fst l ++ [N]) = astep isg (arun isg a l) N 0 false.
+Proof.
+  induction l as [|[d v] l IH]; intros ce a Hsk; simpl.
+  - assert (length vals <= ce)%nat.
+    { pose proof (skipn_length ce vals) as Hl. rewrite Hsk in Hl. simpl in Hl. lia. }
+    rewrite nth_overflow by lia. replace (ce <? length vals)%nat with false; [reflexivity|].
+    symmetry. apply Nat.ltb_ge. lia.
+  - simpl in Hsk. destruct (skipn_cons_inv vals ce v (map snd l) 0 Hsk) as [Hnth [Hsk' Hlt]].
+    rewrite Hnth. replace (ce <? length vals)%nat with true by (symmetry; apply Nat.ltb_lt; exact Hlt).
+    apply IH. exact Hsk'.
+Qed.
+End SimLoop.
+Lemma nondecrZ_map x (l : list (Z * Z)) N : nondecr x l -> Forall (fun e => fst e < N) l -> x <= N ->
+  nondecrZ x (map fst l ++ [N]).
+Proof.
+  revert x. induction l as [|[d v] l IH]; intros x Hn Hf Hx; simpl.
+  - split; [exact Hx|exact Logic.I].
+  - destruct Hn as [Hd Hn]. inversion Hf; subst. simpl in *. split; [exact Hd|]. apply IH; auto. lia.
+Qed.
+
+(* the index-based model of _single_event_per_dump (nth / upd on the mutated events array) yields exactly the
+   (value, final dump) pairs of the cached-look-up machine *)
+Lemma gen_index_eq (isg : Z -> bool) v0 (l : list (Z * Z)) N :
+  nondecr 0 l -> Forall (fun e => fst e < N) ((0, v0) :: l) ->
+  let evt := 0 :: map fst l ++ [N] in
+  let vals := v0 :: map snd l in
+  let ce := single_event_per_dump evt (map isg vals) in
+  map (fun i => (nth i vals 0, nth i (snd ce) 0)) (fst ce) = afinal isg v0 l N.
+Proof.
+  intros Hn Hf evt vals. unfold single_event_per_dump. cbv zeta.
+  set (g := map isg vals). set (s0 := mk_gst 0 0 evt []).
+  assert (Hs : gen_loop g s0 0 evt = gen_loop g s0 1 (map fst l ++ [N])).
+  { change (gen_loop g s0 0 (0 :: (map fst l ++ [N])) = gen_loop g s0 1 (map fst l ++ [N])).
+    simpl gen_loop. f_equal. unfold gstep. simpl.
+    destruct (isg v0); reflexivity. }
+  rewrite Hs. simpl fst. simpl snd.
+  set (a0 := mk_ast 0 v0 true v0 0 []).
+  assert (HR : R evt vals 1 s0 a0).
+  { unfold R, s0, a0. cbn [pw pd evm out ad av alast lv apd aout]. simpl.
+    repeat split; try lia; try reflexivity; constructor. }
+  inversion Hf as [|? ? H0N Hf']; subst. simpl in H0N.
+  pose proof (sim_loop isg evt vals (map fst l ++ [N]) 1 s0 a0 HR eq_refl) as HL.
+  assert (Hlen : (length vals + 1 = length evt)%nat).
+  { unfold vals, evt. simpl. rewrite app_length, !map_length. simpl. lia. }
+  specialize (HL ltac:(unfold evt; simpl; lia) Hlen (nondecrZ_map 0 l N Hn Hf' ltac:(simpl; lia))).
+  destruct HL as [_ [_ [_ [_ [_ [_ [_ [_ [_ [_ [Hp _]]]]]]]]]]].
+  unfold prs in Hp. fold g in Hp. rewrite Hp.
+  rewrite (aloop_arun isg vals N l 1 a0 eq_refl). reflexivity.
+Qed.
+
+(* THE generator theorem, about the index-based model *)
+Lemma generator_rule (isg : Z -> bool) v0 (l : list (Z * Z)) N :
+  nondecr 0 l -> Forall (fun e => fst e < N) ((0, v0) :: l) ->
+  let evt := 0 :: map fst l ++ [N] in
+  let vals := v0 :: map snd l in
+  let ce := single_event_per_dump evt (map isg vals) in
+  let out := map (fun i => (nth i vals 0, nth i (snd ce) 0)) (fst ce) in
+  (forall k, 0 <= k < N -> lookupd 0 out k = ivalue isg ((0, v0) :: l) k) /\
+  Forall (fun e => 0 <= snd e < N) out /\ ssorted (map snd out) /\ exists v t, out = (v, 0) :: t.
+Proof.
+  intros Hn Hf evt vals ce out. unfold out, ce, evt, vals.
+  rewrite (gen_index_eq isg v0 l N Hn Hf). apply afinal_rule; assumption.
+Qed.
+(* ====================================================================================
+   Part B.  Repeat removal and the CategoricalData look-up.
+   ==================================================================================== *)
+Lemma lookupd_cons p v d t k : lookupd p ((v, d) :: t) k = if d <=? k then lookupd v t k else lookupd p t k.
+Proof. unfold lookupd. simpl. destruct (d <=? k); [|reflexivity]. simpl map. apply last_cons. Qed.
+
+Lemma lookupd_above p t k : Forall (fun y => k < y) (map snd t) -> lookupd p t k = p.
+Proof.
+  induction t as [|[v d] t IH]; intro H; [reflexivity|]. simpl in H. inversion H; subst.
+  rewrite lookupd_cons. destruct (d <=? k) eqn:E; [lia|]. apply IH. assumption.
+Qed.
+
+Lemma cf_Forall (P : Z -> Prop) t : forall prev, Forall P (map snd t) -> Forall P (map snd (changes_from prev t)).
+Proof.
+  induction t as [|[v d] t IH]; intros prev H; [constructor|]. simpl in *. inversion H; subst.
+  destruct (v =? prev); [apply IH; assumption|]. simpl. constructor; [assumption|apply IH; assumption].
+Qed.
+
+Lemma cf_ssorted t : forall prev, ssorted (map snd t) -> ssorted (map snd (changes_from prev t)).
+Proof.
+  induction t as [|[v d] t IH]; intros prev H; [exact Logic.I|]. simpl in *. destruct H as [Hf Hs].
+  destruct (v =? prev); [apply IH; assumption|]. simpl. split; [apply cf_Forall; assumption|apply IH; assumption].
+Qed.
+
+Lemma Forall_gt_trans (l : list Z) d k : Forall (fun y => d < y) l -> k < d -> Forall (fun y => k < y) l.
+Proof. intros H Hk. eapply Forall_impl; [|exact H]. simpl. intros. lia. Qed.
+
+Lemma cf_lookup t : forall prev k, ssorted (map snd t) ->
+  lookupd prev (changes_from prev t) k = lookupd prev t k.
+Proof.
+  induction t as [|[v d] t IH]; intros prev k H; [reflexivity|]. simpl in *. destruct H as [Hf Hs].
+  rewrite lookupd_cons. destruct (v =? prev) eqn:E.
+  - assert (v = prev) by lia. subst v. rewrite IH by assumption. destruct (d <=? k); reflexivity.
+  - rewrite lookupd_cons. destruct (d <=? k) eqn:Ek; [apply IH; assumption|].
+    rewrite !lookupd_above; auto.
+    + eapply Forall_gt_trans; [exact Hf|lia].
+    + apply cf_Forall. eapply Forall_gt_trans; [exact Hf|lia].
+Qed.
+
+Lemma rr_lookup ps k : ssorted (map snd ps) -> lookupd 0 (remove_repeats ps) k = lookupd 0 ps k.
+Proof.
+  destruct ps as [|[v d] t]; [reflexivity|]. simpl. intros [Hf Hs].
+  rewrite !lookupd_cons. destruct (d <=? k) eqn:E; [apply cf_lookup; assumption|].
+  rewrite !lookupd_above; auto.
+  - eapply Forall_gt_trans; [exact Hf|lia].
+  - apply cf_Forall. eapply Forall_gt_trans; [exact Hf|lia].
+Qed.
+
+Lemma rr_ssorted ps : ssorted (map snd ps) -> ssorted (map snd (remove_repeats ps)).
+Proof.
+  destruct ps as [|[v d] t]; [auto|]. simpl. intros [Hf Hs]. split; [apply cf_Forall|apply cf_ssorted]; assumption.
+Qed.
+Lemma rr_Forall (P : Z -> Prop) ps : Forall P (map snd ps) -> Forall P (map snd (remove_repeats ps)).
+Proof.
+  destruct ps as [|[v d] t]; [auto|]. simpl. intro H. inversion H; subst. constructor; [assumption|apply cf_Forall; assumption].
+Qed.
+Lemma rr_head ps v t : ps = (v, 0) :: t -> exists t', remove_repeats ps = (v, 0) :: t'.
+Proof. intros ->. simpl. eauto. Qed.
+
+(* no two consecutive values are equal *)
+Fixpoint norep_from (prev : Z) (l : list Z) : Prop :=
+  match l with [] => True | v :: t => v <> prev /\ norep_from v t end.
+Definition norep (l : list Z) : Prop := match l with [] => True | v :: t => norep_from v t end.
+
+Lemma cf_norep t : forall prev, norep_from prev (map fst (changes_from prev t)).
+Proof.
+  induction t as [|[v d] t IH]; intro prev; [exact Logic.I|]. simpl.
+  destruct (v =? prev) eqn:E.
+  - assert (v = prev) by lia. subst. apply IH.
+  - simpl. split; [lia|apply IH].
+Qed.
+Lemma rr_norep ps : norep (map fst (remove_repeats ps)).
+Proof. destruct ps as [|[v d] t]; [exact Logic.I|]. simpl. apply cf_norep. Qed.
+
+(* ---------- unique_in_order / indices ---------- *)
+Lemma memZ_In v l : memZ v l = true <-> In v l.
+Proof.
+  unfold memZ. rewrite existsb_exists. split.
+  - intros [x [Hx He]]. assert (v = x) by lia. subst. exact Hx.
+  - intro H. exists v. split; [exact H|lia].
+Qed.
+
+Lemma uio_acc l : forall acc v, In v acc \/ In v l ->
+  In v (fold_left (fun acc v => if memZ v acc then acc else acc ++ [v]) l acc).
+Proof.
+  induction l as [|x l IH]; intros acc v H; simpl.
+  - destruct H as [H|[]]. exact H.
+  - apply IH. destruct H as [H|[H|H]].
+    + left. destruct (memZ x acc); [exact H|apply in_or_app; left; exact H].
+    + subst x. left. destruct (memZ v acc) eqn:E; [apply memZ_In; exact E|apply in_or_app; right; left; reflexivity].
+    + right. exact H.
+Qed.
+Lemma uio_In l v : In v l -> In v (unique_in_order l).
+Proof. intro H. apply uio_acc. right. exact H. Qed.
+
+Lemma index_of_nth v u : In v u -> exists j, index_of v u = Some j /\ nth j u 0 = v.
+Proof.
+  induction u as [|x u IH]; intro H; [destruct H|]. simpl.
+  destruct (x =? v) eqn:E.
+  - exists O. split; [reflexivity|simpl; lia].
+  - destruct H as [H|H]; [lia|]. destruct (IH H) as [j [Hj Hn]]. exists (S j). rewrite Hj. split; [reflexivity|exact Hn].
+Qed.
+
+Lemma cat_value vs i : (i < length vs)%nat ->
+  let u := unique_in_order vs in
+  nth (nth i (map (fun v => match index_of v u with Some i => i | None => O end) vs) O) u 0 = nth i vs 0.
+Proof.
+  intros Hi u.
+  rewrite (nth_map_lt (fun v => match index_of v u with Some i => i | None => O end) vs i 0 O Hi).
+  destruct (index_of_nth (nth i vs 0) u (uio_In vs _ (nth_In vs 0 Hi))) as [j [Hj Hn]].
+  rewrite Hj. exact Hn.
+Qed.
+
+(* ---------- data[:] ---------- *)
+Lemma ss_right_app_big a N k : k < N -> ss_right (a ++ [N]) k = ss_right a k.
+Proof.
+  intro H. induction a as [|x a IH]; simpl.
+  - destruct (N <=? k) eqn:E; [lia|reflexivity].
+  - destruct (x <=? k); [rewrite IH; reflexivity|reflexivity].
+Qed.
+Lemma ss_right_le a k : (ss_right a k <= length a)%nat.
+Proof. induction a as [|x a IH]; simpl; [lia|]. destruct (x <=? k); simpl; lia. Qed.
+
+Lemma lookup_ss ps : forall dflt k, ssorted (map snd ps) ->
+  lookupd dflt ps k = match ss_right (map snd ps) k with O => dflt | S j => nth j (map fst ps) 0 end.
+Proof.
+  induction ps as [|[v d] t IH]; intros dflt k H; [reflexivity|]. simpl in H. destruct H as [Hf Hs].
+  rewrite lookupd_cons. simpl. destruct (d <=? k) eqn:E.
+  - rewrite (IH v k Hs). destruct (ss_right (map snd t) k); reflexivity.
+  - apply lookupd_above. eapply Forall_gt_trans; [exact Hf|lia].
+Qed.
+
+Lemma res_all_map {A} (f : nat -> res A) (g : nat -> A) n : forall s,
+  (forall i, (s <= i < s + n)%nat -> f i = Ok (g i)) -> res_all (map f (seq s n)) = Ok (map g (seq s n)).
+Proof.
+  induction n as [|n IH]; intros s H; [reflexivity|]. simpl. rewrite (H s) by lia.
+  rewrite (IH (S s)); [reflexivity|]. intros i Hi. apply H. lia.
+Qed.
+
+Definition zrange (N : Z) : list Z := map Z.of_nat (seq 0 (Z.to_nat N)).
+
+Lemma cat_all_lookup ps N v0 t : ps = (v0, 0) :: t -> ssorted (map snd ps) ->
+  Forall (fun d => 0 <= d < N) (map snd ps) ->
+  cat_all (cat_of (map fst ps) (map snd ps ++ [N])) = Ok (map (lookupd 0 ps) (zrange N)).
+Proof.
+  intros Hps Hs Hf. unfold cat_all. cbn [cevents cat_of].
+  rewrite last_app_single. unfold zrange. rewrite map_map.
+  assert (HN : 0 < N). { rewrite Hps in Hf. simpl in Hf. inversion Hf; subst. lia. }
+  apply res_all_map. intros i Hi. unfold cat_lookup. cbn [cevents indices unique_values cat_of].
+  assert (Hk : 0 <= Z.of_nat i < N) by lia.
+  rewrite ss_right_app_big by lia. rewrite map_length.
+  pose proof (ss_right_le (map snd ps) (Z.of_nat i)) as Hle. rewrite map_length in Hle.
+  pose proof (lookup_ss ps 0 (Z.of_nat i) Hs) as Hl.
+  destruct (ss_right (map snd ps) (Z.of_nat i)) as [|j] eqn:Ej.
+  - exfalso. rewrite Hps in Ej. simpl in Ej. destruct (0 <=? Z.of_nat i) eqn:E; [discriminate|lia].
+  - replace (Z.of_nat (S j) - 1) with (Z.of_nat j) by lia.
+    destruct ((Z.of_nat j <? 0) || (Z.of_nat (length (map fst ps)) <=? Z.of_nat j)) eqn:E.
+    + rewrite map_length in E. lia.
+    + rewrite Nat2Z.id. rewrite cat_value by (rewrite map_length; lia). rewrite Hl. reflexivity.
+Qed.
+(* ====================================================================================
+   Part C.  Everything after the preparation of the event list (lines 753-770 + CategoricalData).
+   ==================================================================================== *)
+Definition wf_result (v e : list Z) (N : Z) (allow_repeats : bool) : Prop :=
+  (exists t, e = 0 :: t) /\ ssorted e /\ last e 0 = N /\ length e = S (length v) /\
+  (allow_repeats = false -> norep v).
+
+Lemma zrange_bounds N k : In k (zrange N) -> 0 <= k < N.
+Proof.
+  unfold zrange. intro H. apply in_map_iff in H. destruct H as [i [Hi Hin]]. apply in_seq in Hin. lia.
+Qed.
+
+Lemma tail_rule (greedy : list Z) (ar : bool) v0 (l : list (Z * Z)) N :
+  nondecr 0 l -> Forall (fun e => fst e < N) ((0, v0) :: l) ->
+  let isg := fun v => memZ v greedy in
+  let ve := s2c_tail (v0 :: map snd l) (0 :: map fst l) N greedy ar in
+  cat_all (cat_of (fst ve) (snd ve)) = Ok (map (ivalue isg ((0, v0) :: l)) (zrange N)) /\
+  wf_result (fst ve) (snd ve) N ar.
+Proof.
+  intros Hn Hf isg. unfold s2c_tail.
+  pose proof (generator_rule isg v0 l N Hn Hf) as HG. cbv zeta in HG.
+  change ((0 :: map fst l) ++ [N]) with (0 :: map fst l ++ [N]).
+  fold isg.
+  destruct (single_event_per_dump (0 :: map fst l ++ [N]) (map isg (v0 :: map snd l))) as [c e] eqn:Ece.
+  simpl fst in HG. simpl snd in HG.
+  set (out := map (fun i => (nth i (v0 :: map snd l) 0, nth i e 0)) c) in *.
+  destruct HG as [Hlk [Hfo [Hs [vh [th Hh]]]]].
+  set (ps := if ar then out else remove_repeats out).
+  assert (Hps : (forall k, 0 <= k < N -> lookupd 0 ps k = ivalue isg ((0, v0) :: l) k) /\
+                Forall (fun d => 0 <= d < N) (map snd ps) /\ ssorted (map snd ps) /\
+                (exists t', ps = (vh, 0) :: t') /\ (ar = false -> norep (map fst ps))).
+  { assert (Hfo' : Forall (fun d => 0 <= d < N) (map snd out)) by (apply Forall_map; exact Hfo).
+    unfold ps. destruct ar.
+    - repeat split; auto; [eauto|discriminate].
+    - split; [intros k Hk; rewrite rr_lookup by exact Hs; apply Hlk; exact Hk|].
+      split; [apply rr_Forall; exact Hfo'|]. split; [apply rr_ssorted; exact Hs|].
+      split; [eapply rr_head; exact Hh|]. intros _. apply rr_norep. }
+  destruct Hps as [Plk [Pfo [Pss [[t' Ph] Pnr]]]].
+  cbv zeta. simpl fst. simpl snd. split.
+  - rewrite (cat_all_lookup ps N vh t' Ph Pss Pfo). f_equal. apply map_ext_in.
+    intros k Hk. apply Plk. apply zrange_bounds. exact Hk.
+  - unfold wf_result. split; [rewrite Ph; simpl; eauto|].
+    split; [apply ssorted_snoc; [exact Pss|eapply Forall_impl; [|exact Pfo]; simpl; intros; lia]|].
+    split; [apply last_app_single|]. split; [rewrite app_length, !map_length; simpl; lia|exact Pnr].
+Qed.
+(* ====================================================================================
+   Part D.  The preparation of the event list (lines 714-752).
+   ==================================================================================== *)
+Section TW.
+Context {A : Type}.
+Fixpoint tw (f : A -> bool) (l : list A) : list A :=
+  match l with [] => [] | x :: t => if f x then x :: tw f t else [] end.
+Fixpoint dw (f : A -> bool) (l : list A) : list A :=
+  match l with [] => [] | x :: t => if f x then dw f t else x :: t end.
+Lemma tw_dw f l : l = tw f l ++ dw f l.
+Proof. induction l as [|x l IH]; [reflexivity|]. simpl. destruct (f x); [simpl; f_equal; exact IH|reflexivity]. Qed.
+Lemma tw_Forall f l : Forall (fun x => f x = true) (tw f l).
+Proof. induction l as [|x l IH]; [constructor|]. simpl. destruct (f x) eqn:E; [constructor; assumption|constructor]. Qed.
+Lemma dw_head f l : match dw f l with [] => True | x :: _ => f x = false end.
+Proof. induction l as [|x l IH]; [exact Logic.I|]. simpl. destruct (f x) eqn:E; [exact IH|exact E]. Qed.
+Lemma firstn_tw {B} (g : A -> B) f l : firstn (length (tw f l)) (map g l) = map g (tw f l).
+Proof. induction l as [|x l IH]; [reflexivity|]. simpl. destruct (f x); [simpl; f_equal; exact IH|reflexivity]. Qed.
+Lemma skipn_tw {B} (g : A -> B) f l : skipn (length (tw f l)) (map g l) = map g (dw f l).
+Proof. induction l as [|x l IH]; [reflexivity|]. simpl. destruct (f x); [simpl; exact IH|reflexivity]. Qed.
+End TW.
+
+Lemma ss_right_tw (dv : list (Z * Z)) v : ss_right (map fst dv) v = length (tw (fun p => fst p <=? v) dv).
+Proof. induction dv as [|x l IH]; [reflexivity|]. simpl. destruct (fst x <=? v); [simpl; f_equal; exact IH|reflexivity]. Qed.
+Lemma ss_left_tw (dv : list (Z * Z)) v : ss_left (map fst dv) v = length (tw (fun p => fst p <? v) dv).
+Proof. induction dv as [|x l IH]; [reflexivity|]. simpl. destruct (fst x <? v); [simpl; f_equal; exact IH|reflexivity]. Qed.
+
+Lemma map_fst_combine {A B} (a : list A) (b : list B) : length a = length b -> map fst (combine a b) = a.
+Proof. revert b. induction a as [|x a IH]; intros [|y b] H; simpl in *; try discriminate; [reflexivity|]. f_equal. apply IH. lia. Qed.
+Lemma map_snd_combine {A B} (a : list A) (b : list B) : length a = length b -> map snd (combine a b) = b.
+Proof. revert b. induction a as [|x a IH]; intros [|y b] H; simpl in *; try discriminate; [reflexivity|]. f_equal. apply IH. lia. Qed.
+
+Lemma upd_app {A} (a : list A) x b v : upd (a ++ x :: b) (length a) v = a ++ v :: b.
+Proof. induction a as [|y a IH]; [reflexivity|]. simpl. f_equal. exact IH. Qed.
+Lemma ss_left_app a b v : Forall (fun x => x < v) a -> ss_left (a ++ b) v = (length a + ss_left b v)%nat.
+Proof.
+  induction 1 as [|x a Hx _ IH]; [reflexivity|]. simpl. destruct (x <? v) eqn:E; [|lia]. rewrite IH. reflexivity.
+Qed.
+Lemma slice_app {A} (a c : list A) n : slice (length a) (length a + n) (a ++ c) = firstn n c.
+Proof.
+  unfold slice. rewrite skipn_app, skipn_all, Nat.sub_diag. simpl. f_equal. lia.
+Qed.
+
+Definition kept (dv : list (Z * Z)) (N : Z) : list (Z * Z) :=
+  let pri := tw (fun p => fst p <=? -1) dv in
+  let mid := tw (fun p => fst p <? N) (dw (fun p => fst p <=? -1) dv) in
+  match last_opt pri with Some p => (0, snd p) :: mid | None => mid end.
+
+Lemma prep_slices (ds tvals : list Z) N : 0 < N -> length ds = length tvals ->
+  let dv := combine ds tvals in
+  let fp0 := ss_right ds (-1) in
+  let fe := if (0 <? fp0)%nat then ((fp0 - 1)%nat, upd ds (fp0 - 1) 0) else (fp0, ds) in
+  let opl := ss_left (snd fe) N in
+  slice (fst fe) opl (snd fe) = map fst (kept dv N) /\ slice (fst fe) opl tvals = map snd (kept dv N).
+Proof.
+  intros HN Hlen dv fp0 fe opl.
+  assert (Hds : ds = map fst dv) by (symmetry; apply map_fst_combine; exact Hlen).
+  assert (Htv : tvals = map snd dv) by (symmetry; apply map_snd_combine; exact Hlen).
+  clearbody dv. subst ds tvals. clear Hlen.
+  set (f1 := fun p : Z * Z => fst p <=? -1) in *. set (f2 := fun p : Z * Z => fst p <? N) in *.
+  assert (Hfp : fp0 = length (tw f1 dv)) by (unfold fp0; apply ss_right_tw).
+  unfold kept. fold f1 f2.
+  destruct (tw f1 dv) as [|p0 pri0] eqn:Epri.
+  - (* no prior event *)
+    simpl in Hfp. subst opl fe. cbv zeta. rewrite Hfp. simpl.
+    assert (Hdw : dw f1 dv = dv).
+    { pose proof (tw_dw f1 dv) as H. rewrite Epri in H. simpl in H. symmetry. exact H. }
+    rewrite Hdw. unfold slice. simpl. rewrite Nat.sub_0_r.
+    rewrite ss_left_tw. fold f2. rewrite !firstn_tw. split; reflexivity.
+  - (* some prior event: the last one moves to dump 0 *)
+    assert (Hne : p0 :: pri0 <> []) by discriminate.
+    destruct (exists_last Hne) as [pa [pl Epl]].
+    assert (Hlo : last_opt (p0 :: pri0) = Some pl) by (rewrite Epl; apply last_opt_snoc).
+    rewrite Hlo.
+    assert (Hdv : dv = pa ++ pl :: dw f1 dv).
+    { pose proof (tw_dw f1 dv) as H. rewrite Epri, Epl in H. rewrite <- app_assoc in H. exact H. }
+    assert (Hfp' : fp0 = S (length pa)).
+    { rewrite Hfp, Epl, app_length. simpl. lia. }
+    subst opl fe. cbv zeta. replace (0 <? fp0)%nat with true by (symmetry; apply Nat.ltb_lt; lia).
+    simpl fst. simpl snd. replace (fp0 - 1)%nat with (length pa) by lia.
+    set (rest := dw f1 dv) in *.
+    assert (Hds' : map fst dv = map fst pa ++ fst pl :: map fst rest).
+    { rewrite Hdv at 1. rewrite map_app. reflexivity. }
+    assert (Htv' : map snd dv = map snd pa ++ snd pl :: map snd rest).
+    { rewrite Hdv at 1. rewrite map_app. reflexivity. }
+    assert (Hupd : upd (map fst dv) (length pa) 0 = map fst pa ++ 0 :: map fst rest).
+    { rewrite Hds'. rewrite <- (map_length fst pa). apply upd_app. }
+    rewrite Hupd.
+    assert (Hpri : Forall (fun x => x < N) (map fst pa)).
+    { apply Forall_map. pose proof (tw_Forall f1 dv) as H. rewrite Epri, Epl in H.
+      apply Forall_app in H. destruct H as [H _]. eapply Forall_impl; [|exact H]. unfold f1. simpl. intros. lia. }
+    assert (Hopl : ss_left (map fst pa ++ 0 :: map fst rest) N = (length pa + S (length (tw f2 rest)))%nat).
+    { rewrite (ss_left_app (map fst pa) (0 :: map fst rest) N Hpri), map_length.
+      simpl ss_left. replace (0 <? N) with true by lia. rewrite ss_left_tw. reflexivity. }
+    rewrite Hopl. split.
+    + rewrite <- (map_length fst pa) at 1 2. rewrite slice_app. simpl firstn. rewrite firstn_tw. reflexivity.
+    + rewrite Htv'. rewrite <- (map_length snd pa) at 1 2. rewrite slice_app. simpl firstn. rewrite firstn_tw. reflexivity.
+Qed.
+Definition Dmap (ends' : list Z) (t : Z) : Z := Z.of_nat (ss_left ends' t) - 1.
+
+(* the event list handed to the generator, as (dump, value) pairs *)
+Definition with_init (K : list (Z * Z)) (init : option Z) : list (Z * Z) :=
+  match init with
+  | Some i => match K with
+              | [] => [(0, i)]
+              | (d, _) :: _ => if d =? 0 then K else (0, i) :: K
+              end
+  | None => K
+  end.
+
+Lemma map_slice {A B} (f : A -> B) a b l : map f (slice a b l) = slice a b (map f l).
+Proof. unfold slice. rewrite skipn_map, firstn_map. reflexivity. Qed.
+
+Lemma prep_kept ts vals e0 er P tr init : length ts = length vals ->
+  let ends := e0 :: er in
+  let N := Z.of_nat (length ends) in
+  let dv := combine (map (Dmap ((e0 - P) :: ends)) ts) (map (app_tr tr) vals) in
+  s2c_prep ts vals ends P tr init =
+    match with_init (kept dv N) init with
+    | [] => None
+    | (_, v) :: t => Some (v :: map snd t, 0 :: map fst t)
+    end.
+Proof.
+  intros Hlen. cbv zeta. unfold s2c_prep. lazy iota beta.
+  set (ends := e0 :: er). set (N := Z.of_nat (length ends)).
+  change (map (fun t => Z.of_nat (ss_left ((e0 - P) :: ends) t) - 1) ts) with (map (Dmap ((e0 - P) :: ends)) ts).
+  set (dv := combine (map (Dmap ((e0 - P) :: ends)) ts) (map (app_tr tr) vals)).
+  set (ds := map (Dmap ((e0 - P) :: ends)) ts) in *.
+  assert (HN : 0 < N) by (unfold N, ends; simpl length; lia).
+  assert (Hl2 : length ds = length (map (app_tr tr) vals)) by (unfold ds; rewrite !map_length; exact Hlen).
+  pose proof (prep_slices ds (map (app_tr tr) vals) N HN Hl2) as HS. cbv zeta in HS. fold dv in HS.
+  destruct (0 <? ss_right ds (-1))%nat; simpl fst in HS; simpl snd in HS; destruct HS as [HS1 HS2];
+  rewrite map_slice, HS1, HS2; unfold with_init;
+  (destruct (kept dv N) as [|[d v] K']; simpl; destruct init; try reflexivity; destruct (d =? 0); reflexivity).
+Qed.
+(* ---------- sorted (dump, value) lists: prior / inside / late ---------- *)
+Lemma nondecr_ge x (l : list (Z * Z)) : nondecr x l -> Forall (fun p => x <= fst p) l.
+Proof.
+  revert x. induction l as [|a l IH]; intros x H; [constructor|]. destruct H as [H1 H2].
+  constructor; [exact H1|]. eapply Forall_impl; [|apply IH; exact H2]. simpl. intros. lia.
+Qed.
+Lemma nondecr_raise x y (l : list (Z * Z)) : nondecr x l -> Forall (fun p => y <= fst p) l -> nondecr y l.
+Proof. destruct l as [|a l]; [auto|]. intros [H1 H2] Hf. inversion Hf; subst. split; assumption. Qed.
+Lemma tw_sub {A} (P : A -> Prop) f l : Forall P l -> Forall P (tw f l).
+Proof. induction 1 as [|a l Ha _ IH]; [constructor|]. simpl. destruct (f a); [constructor; assumption|constructor]. Qed.
+Lemma dw_sub {A} (P : A -> Prop) f l : Forall P l -> Forall P (dw f l).
+Proof. induction 1 as [|a l Ha Hl IH]; [constructor|]. simpl. destruct (f a); [exact IH|constructor; assumption]. Qed.
+Lemma tw_nondecr f (l : list (Z * Z)) : forall x, nondecr x l -> nondecr x (tw f l).
+Proof. induction l as [|a l IH]; intros x H; [exact Logic.I|]. destruct H as [H1 H2]. simpl. destruct (f a); [split; [exact H1|apply IH; exact H2]|exact Logic.I]. Qed.
+Lemma dw_nondecr f (l : list (Z * Z)) : forall x, nondecr x l -> nondecr x (dw f l).
+Proof.
+  induction l as [|a l IH]; intros x H; [exact Logic.I|]. destruct H as [H1 H2]. simpl. destruct (f a).
+  - apply nondecr_raise with (x := fst a); [apply IH; exact H2|].
+    eapply Forall_impl; [|apply nondecr_ge; apply IH; exact H2]. simpl. intros. lia.
+  - split; assumption.
+Qed.
+Lemma dw_sorted_gt (l : list (Z * Z)) v : forall x, nondecr x l -> Forall (fun p => v < fst p) (dw (fun p => fst p <=? v) l).
+Proof.
+  induction l as [|a l IH]; intros x H; [constructor|]. destruct H as [H1 H2]. simpl.
+  destruct (fst a <=? v) eqn:E; [apply (IH (fst a)); exact H2|].
+  constructor; [lia|]. eapply Forall_impl; [|apply nondecr_ge; exact H2]. simpl. intros. lia.
+Qed.
+Lemma dw_sorted_ge (l : list (Z * Z)) v : forall x, nondecr x l -> Forall (fun p => v <= fst p) (dw (fun p => fst p <? v) l).
+Proof.
+  induction l as [|a l IH]; intros x H; [constructor|]. destruct H as [H1 H2]. simpl.
+  destruct (fst a <? v) eqn:E; [apply (IH (fst a)); exact H2|].
+  constructor; [lia|]. eapply Forall_impl; [|apply nondecr_ge; exact H2]. simpl. intros. lia.
+Qed.
+
+Lemma Forall_and {A} (P Q : A -> Prop) l : Forall P l -> Forall Q l -> Forall (fun x => P x /\ Q x) l.
+Proof. induction 1; intro H2; inversion H2; subst; constructor; auto. Qed.
+
+Lemma dv_split (dv : list (Z * Z)) N : nondecr (-1) dv -> Forall (fun p => fst p <= N) dv ->
+  let f1 := fun p : Z * Z => fst p <=? -1 in
+  let f2 := fun p : Z * Z => fst p <? N in
+  let pri := tw f1 dv in let mid := tw f2 (dw f1 dv) in let late := dw f2 (dw f1 dv) in
+  dv = pri ++ mid ++ late /\ Forall (fun p => fst p = -1) pri /\
+  Forall (fun p => 0 <= fst p < N) mid /\ nondecr 0 mid /\ Forall (fun p => fst p = N) late.
+Proof.
+  intros Hn Hf f1 f2 pri mid late.
+  assert (Hrest : Forall (fun p => 0 <= fst p) (dw f1 dv)).
+  { eapply Forall_impl; [|apply (dw_sorted_gt dv (-1) (-1) Hn)]. simpl. intros. lia. }
+  split; [unfold pri, mid, late; rewrite <- tw_dw; apply tw_dw|].
+  split.
+  { pose proof (Forall_and _ _ _ (tw_Forall f1 dv) (tw_sub _ f1 _ (nondecr_ge _ _ Hn))) as H.
+    eapply Forall_impl; [|exact H]. unfold f1. simpl. intros. lia. }
+  split.
+  { pose proof (Forall_and _ _ _ (tw_Forall f2 (dw f1 dv)) (tw_sub _ f2 _ Hrest)) as H.
+    eapply Forall_impl; [|exact H]. unfold f2. simpl. intros. lia. }
+  split.
+  { apply tw_nondecr. apply nondecr_raise with (x := -1); [apply dw_nondecr; exact Hn|exact Hrest]. }
+  pose proof (Forall_and _ _ _ (dw_sorted_ge (dw f1 dv) N (-1) (dw_nondecr f1 dv (-1) Hn))
+                             (dw_sub _ f2 _ (dw_sub _ f1 _ Hf))) as H.
+  eapply Forall_impl; [|exact H]. simpl. intros. lia.
+Qed.
+
+Lemma before_app k (a b : list (Z * Z)) : before k (a ++ b) = before k a ++ before k b.
+Proof. unfold before. rewrite filter_app, map_app. reflexivity. Qed.
+Lemma indump_app k (a b : list (Z * Z)) : indump k (a ++ b) = indump k a ++ indump k b.
+Proof. unfold indump. rewrite filter_app, map_app. reflexivity. Qed.
+Lemma before_none k (l : list (Z * Z)) : Forall (fun p => k <= fst p) l -> before k l = [].
+Proof. unfold before. induction 1 as [|a l Ha _ IH]; [reflexivity|]. simpl. destruct (fst a <? k) eqn:E; [lia|exact IH]. Qed.
+Lemma indump_none k (l : list (Z * Z)) : Forall (fun p => fst p <> k) l -> indump k l = [].
+Proof. unfold indump. induction 1 as [|a l Ha _ IH]; [reflexivity|]. simpl. destruct (fst a =? k) eqn:E; [lia|exact IH]. Qed.
+Lemma Forall_imp2 {A} (P Q : A -> Prop) l : (forall x, P x -> Q x) -> Forall P l -> Forall Q l.
+Proof. intros H F. eapply Forall_impl; [exact H|exact F]. Qed.
+Section PrepSem.
+Variable isg : Z -> bool.
+
+(* the documented rule on the (dump, value) list of ALL events (prior = -1, late = N), start value st *)
+Definition dvalue (dv : list (Z * Z)) (st k : Z) : Z := pick isg (last (before k dv) st :: indump k dv).
+
+Definition init_dv (dv : list (Z * Z)) (init : option Z) : option Z :=
+  if existsb (fun p => fst p =? -1) dv then init
+  else if existsb (fun p => fst p =? 0) dv then None else init.
+Definition start_dv (dv : list (Z * Z)) (init : option Z) (N : Z) : option Z :=
+  match init_dv dv init with
+  | Some i => Some i
+  | None => hd_error (map snd (filter (fun p => fst p <? N) dv))
+  end.
+
+Lemma pick_dup v xs : pick isg (v :: v :: xs) = pick isg (v :: xs).
+Proof.
+  unfold pick. simpl filter. destruct (isg v).
+  - unfold last_opt. rewrite last_cons. reflexivity.
+  - reflexivity.
+Qed.
+
+Lemma before_cons k d v (l : list (Z * Z)) : before k ((d, v) :: l) = if d <? k then v :: before k l else before k l.
+Proof. unfold before. simpl. destruct (d <? k); reflexivity. Qed.
+Lemma indump_cons k d v (l : list (Z * Z)) : indump k ((d, v) :: l) = if d =? k then v :: indump k l else indump k l.
+Proof. unfold indump. simpl. destruct (d =? k); reflexivity. Qed.
+
+Lemma last_app_mid {A} (a : list A) x b : forall st, last (a ++ x :: b) st = last b x.
+Proof. induction a as [|y a IH]; intro st; simpl app; rewrite last_cons; [reflexivity|apply IH]. Qed.
+
+Lemma ivalue_head0 v l k : Forall (fun p : Z * Z => 0 <= fst p) l -> 0 <= k ->
+  ivalue isg ((0, v) :: l) k =
+  if k =? 0 then pick isg (v :: indump 0 l) else pick isg (last (before k l) v :: indump k l).
+Proof.
+  intros Hf Hk. unfold ivalue. rewrite before_cons, indump_cons.
+  destruct (k =? 0) eqn:E.
+  - assert (k = 0) by lia. subst k. simpl. rewrite before_none by exact Hf. reflexivity.
+  - replace (0 <? k) with true by lia. replace (0 =? k) with false by lia.
+    unfold last_opt. reflexivity.
+Qed.
+
+Lemma existsb_false {A} (f : A -> bool) l : Forall (fun x => f x = false) l -> existsb f l = false.
+Proof. induction 1 as [|a l Ha _ IH]; [reflexivity|]. simpl. rewrite Ha, IH. reflexivity. Qed.
+
+Lemma dv_before (pri mid late : list (Z * Z)) N k : Forall (fun p => fst p = -1) pri ->
+  Forall (fun p => fst p = N) late -> 0 <= k < N ->
+  before k (pri ++ mid ++ late) = map snd pri ++ before k mid.
+Proof.
+  intros Hp Hl Hk. rewrite !before_app.
+  rewrite (before_above k pri) by (eapply Forall_imp2; [|exact Hp]; simpl; intros; lia).
+  rewrite (before_none k late) by (eapply Forall_imp2; [|exact Hl]; simpl; intros; lia).
+  rewrite app_nil_r. reflexivity.
+Qed.
+Lemma dv_indump (pri mid late : list (Z * Z)) N k : Forall (fun p => fst p = -1) pri ->
+  Forall (fun p => fst p = N) late -> 0 <= k < N ->
+  indump k (pri ++ mid ++ late) = indump k mid.
+Proof.
+  intros Hp Hl Hk. rewrite !indump_app.
+  rewrite (indump_none k pri) by (eapply Forall_imp2; [|exact Hp]; simpl; intros; lia).
+  rewrite (indump_none k late) by (eapply Forall_imp2; [|exact Hl]; simpl; intros; lia).
+  rewrite app_nil_r. reflexivity.
+Qed.
+
+Lemma dv_before0 (mid late : list (Z * Z)) N k :
+  Forall (fun p => fst p = N) late -> 0 <= k < N -> before k (mid ++ late) = before k mid.
+Proof. intros. apply (dv_before [] mid late N k); auto. Qed.
+Lemma dv_indump0 (mid late : list (Z * Z)) N k :
+  Forall (fun p => fst p = N) late -> 0 <= k < N -> indump k (mid ++ late) = indump k mid.
+Proof. intros. apply (dv_indump [] mid late N k); auto. Qed.
+
+Lemma prep_sem dv N init : nondecr (-1) dv -> Forall (fun p => fst p <= N) dv -> 0 < N ->
+  match start_dv dv init N with
+  | None => with_init (kept dv N) init = []
+  | Some st => exists d0 v0 l, with_init (kept dv N) init = (d0, v0) :: l /\ nondecr 0 l /\
+       Forall (fun e => fst e < N) ((0, v0) :: l) /\
+       forall k, 0 <= k < N -> ivalue isg ((0, v0) :: l) k = dvalue dv st k
+  end.
+Proof.
+  intros Hn Hf HN.
+  destruct (dv_split dv N Hn Hf) as [Hdv [Hpri [Hmid [Hmn Hlate]]]].
+  unfold kept. unfold start_dv, init_dv, dvalue.
+  set (pri := tw (fun p : Z * Z => fst p <=? -1) dv) in *.
+  set (mid := tw (fun p : Z * Z => fst p <? N) (dw (fun p : Z * Z => fst p <=? -1) dv)) in *.
+  set (late := dw (fun p : Z * Z => fst p <? N) (dw (fun p : Z * Z => fst p <=? -1) dv)) in *.
+  clearbody pri mid late. subst dv.
+  assert (Hmid0 : Forall (fun p : Z * Z => 0 <= fst p) mid) by (eapply Forall_imp2; [|exact Hmid]; simpl; intros; lia).
+  assert (HmidN : Forall (fun p : Z * Z => fst p < N) mid) by (eapply Forall_imp2; [|exact Hmid]; simpl; intros; lia).
+  destruct pri as [|p0 pri0].
+  - (* no prior event *)
+    simpl app. simpl last_opt. cbv iota.
+    assert (Hl1 : existsb (fun p : Z * Z => fst p =? -1) (mid ++ late) = false).
+    { apply existsb_false. apply Forall_app. split; [eapply Forall_imp2; [|exact Hmid0]|eapply Forall_imp2; [|exact Hlate]]; simpl; intros; lia. }
+    rewrite Hl1.
+    destruct mid as [|[d v] mid'].
+    + (* nothing inside the dumps either *)
+      simpl app.
+      assert (Hl0 : existsb (fun p : Z * Z => fst p =? 0) late = false).
+      { apply existsb_false. eapply Forall_imp2; [|exact Hlate]. simpl. intros. lia. }
+      rewrite Hl0.
+      assert (Hfl : filter (fun p : Z * Z => fst p <? N) late = []).
+      { clear -Hlate. induction Hlate as [|a l Ha _ IH]; [reflexivity|]. simpl. destruct (fst a <? N) eqn:E; [lia|exact IH]. }
+      destruct init as [i|]; simpl with_init.
+      * exists 0, i, []. split; [reflexivity|]. split; [exact Logic.I|]. split; [constructor; [simpl; lia|constructor]|].
+        intros k Hk. rewrite ivalue_head0 by (try constructor; lia).
+        rewrite (before_none k late) by (eapply Forall_imp2; [|exact Hlate]; simpl; intros; lia).
+        rewrite (indump_none k late) by (eapply Forall_imp2; [|exact Hlate]; simpl; intros; lia).
+        simpl. destruct (k =? 0); reflexivity.
+      * rewrite Hfl. reflexivity.
+    + inversion Hmid; subst. simpl in H1. destruct Hmn as [Hd0 Hmn']. simpl in Hd0, Hmn'.
+      assert (Hge : Forall (fun p : Z * Z => d <= fst p) mid') by (apply nondecr_ge; exact Hmn').
+      inversion HmidN; subst. inversion Hmid0; subst.
+      assert (Hcase : forall st, (st = v) ->
+                exists d0 v0 l, (d, v) :: mid' = (d0, v0) :: l /\ nondecr 0 l /\
+                  Forall (fun e => fst e < N) ((0, v0) :: l) /\
+                  forall k, 0 <= k < N -> ivalue isg ((0, v0) :: l) k =
+                     pick isg (last (before k (((d, v) :: mid') ++ late)) st :: indump k (((d, v) :: mid') ++ late))).
+      { intros st ->. exists d, v, mid'. split; [reflexivity|].
+        split; [apply nondecr_raise with (x := d); [exact Hmn'|eapply Forall_imp2; [|exact Hge]; simpl; intros; lia]|].
+        split; [constructor; [simpl; lia|assumption]|].
+        intros k Hk. rewrite ivalue_head0 by (assumption || lia).
+        rewrite (dv_before0 ((d, v) :: mid') late N k) by auto.
+        rewrite (dv_indump0 ((d, v) :: mid') late N k) by auto.
+        rewrite before_cons, indump_cons.
+        destruct (d <? k) eqn:E1.
+        - replace (d =? k) with false by lia. replace (k =? 0) with false by lia. rewrite last_cons. reflexivity.
+        - destruct (d =? k) eqn:E2.
+          + assert (k = d) by lia. subst k.
+            rewrite (before_none d mid') by exact Hge. simpl last. rewrite pick_dup.
+            destruct (d =? 0) eqn:E3; [assert (d = 0) by lia; subst d; reflexivity|reflexivity].
+          + rewrite (before_none k mid') by (eapply Forall_imp2; [|exact Hge]; simpl; intros; lia).
+            rewrite (indump_none k mid') by (eapply Forall_imp2; [|exact Hge]; simpl; intros; lia).
+            destruct (k =? 0) eqn:E3; [assert (k = 0) by lia; subst k|]; simpl;
+            rewrite ?(indump_none 0 mid') by (eapply Forall_imp2; [|exact Hge]; simpl; intros; lia); reflexivity. }
+      assert (Hhd : hd_error (map snd (filter (fun p : Z * Z => fst p <? N) (((d, v) :: mid') ++ late))) = Some v).
+      { simpl. replace (d <? N) with true by lia. reflexivity. }
+      destruct init as [i|].
+      * simpl with_init. simpl existsb. destruct (d =? 0) eqn:Ed.
+        -- simpl orb. cbv iota. rewrite Hhd. apply Hcase. reflexivity.
+        -- assert (Hl0 : existsb (fun p : Z * Z => fst p =? 0) (mid' ++ late) = false).
+           { apply existsb_false. apply Forall_app. split; [eapply Forall_imp2; [|exact Hge]|eapply Forall_imp2; [|exact Hlate]]; simpl; intros; lia. }
+           rewrite Hl0. simpl orb. cbv iota.
+           exists 0, i, ((d, v) :: mid'). split; [reflexivity|].
+           split; [split; [simpl; lia|exact Hmn']|].
+           split; [constructor; [simpl; lia|constructor; [simpl; lia|assumption]]|].
+           intros k Hk. rewrite ivalue_head0 by (try constructor; assumption || (simpl; lia)).
+           rewrite (dv_before0 ((d, v) :: mid') late N k) by auto.
+           rewrite (dv_indump0 ((d, v) :: mid') late N k) by auto.
+           destruct (k =? 0) eqn:E3; [|reflexivity]. assert (k = 0) by lia. subst k.
+           rewrite (before_none 0 ((d, v) :: mid')) by (constructor; [simpl; lia|assumption]). reflexivity.
+      * simpl with_init.
+        destruct (existsb (fun p : Z * Z => fst p =? 0) (((d, v) :: mid') ++ late)); rewrite Hhd; apply Hcase; reflexivity.
+  - (* some prior event: its value is in force when the first dump starts; the start value is irrelevant *)
+    assert (Hne : p0 :: pri0 <> []) by discriminate.
+    destruct (exists_last Hne) as [pa [pl Epl]]. rewrite Epl in *.
+    rewrite last_opt_snoc.
+    assert (HK : with_init ((0, snd pl) :: mid) init = (0, snd pl) :: mid) by (destruct init; reflexivity).
+    rewrite HK.
+    assert (Hall : forall st, exists d0 v0 l, (0, snd pl) :: mid = (d0, v0) :: l /\ nondecr 0 l /\
+                  Forall (fun e => fst e < N) ((0, v0) :: l) /\
+                  forall k, 0 <= k < N -> ivalue isg ((0, v0) :: l) k =
+                     pick isg (last (before k ((pa ++ [pl]) ++ mid ++ late)) st :: indump k ((pa ++ [pl]) ++ mid ++ late))).
+    { intro st. exists 0, (snd pl), mid. split; [reflexivity|]. split; [exact Hmn|].
+      split; [constructor; [simpl; lia|exact HmidN]|].
+      intros k Hk. rewrite ivalue_head0 by (assumption || lia).
+      rewrite (dv_before (pa ++ [pl]) mid late N k) by auto.
+      rewrite (dv_indump (pa ++ [pl]) mid late N k) by auto.
+      rewrite map_app. simpl map. rewrite <- app_assoc. simpl app. rewrite last_app_mid.
+      destruct (k =? 0) eqn:E3; [|reflexivity]. assert (k = 0) by lia. subst k.
+      rewrite (before_none 0 mid) by exact Hmid0. reflexivity. }
+    assert (He : existsb (fun p : Z * Z => fst p =? -1) ((pa ++ [pl]) ++ mid ++ late) = true).
+    { apply existsb_exists. exists pl. split; [apply in_or_app; left; apply in_or_app; right; left; reflexivity|].
+      apply Forall_app in Hpri. destruct Hpri as [_ Hpl]. inversion Hpl; subst. lia. }
+    rewrite He.
+    destruct init as [i|]; [apply Hall|].
+    assert (Hhd : exists x, hd_error (map snd (filter (fun p : Z * Z => fst p <? N) ((pa ++ [pl]) ++ mid ++ late))) = Some x).
+    { assert (Hin : In pl (filter (fun p : Z * Z => fst p <? N) ((pa ++ [pl]) ++ mid ++ late))).
+      { apply filter_In. split; [apply in_or_app; left; apply in_or_app; right; left; reflexivity|].
+        apply Forall_app in Hpri. destruct Hpri as [_ Hpl]. inversion Hpl; subst. lia. }
+      destruct (filter (fun p : Z * Z => fst p <? N) ((pa ++ [pl]) ++ mid ++ late)) as [|x xs]; [destruct Hin|].
+      simpl. eauto. }
+    destruct Hhd as [x Hx]. rewrite Hx. apply Hall.
+Qed.
+End PrepSem.
+(* ====================================================================================
+   Part E.  searchsorted against the dump end times: event e lands in dump k iff end_{k-1} < t_e <= end_k.
+   ==================================================================================== *)
+Lemma ss_left_mono a t1 t2 : t1 <= t2 -> (ss_left a t1 <= ss_left a t2)%nat.
+Proof.
+  intro H. induction a as [|x a IH]; simpl; [lia|].
+  destruct (x <? t1) eqn:E1; destruct (x <? t2) eqn:E2; lia.
+Qed.
+Lemma ss_left_le a t : (ss_left a t <= length a)%nat.
+Proof. induction a as [|x a IH]; simpl; [lia|]. destruct (x <? t); simpl; lia. Qed.
+
+(* consecutive elements (lo, hi) of a strictly increasing array a, position k *)
+Lemma ss_pairs a : ssorted a -> forall k lo hi, nth_error (combine a (tl a)) k = Some (lo, hi) ->
+  forall t, ((lo <? t) && (t <=? hi) = (ss_left a t =? S k)%nat) /\ ((t <=? lo) = (ss_left a t <=? k)%nat).
+Proof.
+  induction a as [|x a IH]; intros Hs k lo hi Hk t; [destruct k; discriminate|].
+  destruct a as [|y r]; [destruct k; discriminate|].
+  destruct Hs as [Hx Hs]. simpl tl in *.
+  destruct k as [|k].
+  - simpl in Hk. inversion Hk; subst. simpl. destruct (lo <? t) eqn:E1; destruct (hi <? t) eqn:E2; simpl; split; lia.
+  - change (nth_error (combine (y :: r) (tl (y :: r))) k = Some (lo, hi)) in Hk.
+    destruct (IH Hs k lo hi Hk t) as [I1 I2].
+    assert (Hlo : x < lo).
+    { apply nth_error_In in Hk. apply in_combine_l in Hk. rewrite Forall_forall in Hx. apply Hx. exact Hk. }
+    change (ss_left (x :: y :: r) t) with (if x <? t then S (ss_left (y :: r) t) else O).
+    destruct (x <? t) eqn:E.
+    + split; [rewrite I1|rewrite I2]; reflexivity.
+    + split; [|].
+      * replace (lo <? t) with false by lia. reflexivity.
+      * replace (t <=? lo) with true by lia. reflexivity.
+Qed.
+
+Lemma ss_left_full a : ssorted a -> a <> [] -> forall t d, (ss_left a t <? length a)%nat = (t <=? last a d).
+Proof.
+  induction a as [|x a IH]; intros Hs Hne t d; [congruence|]. destruct Hs as [Hx Hs].
+  destruct a as [|y r].
+  - simpl. destruct (x <? t) eqn:E; simpl; lia.
+  - assert (Hne' : y :: r <> []) by discriminate. specialize (IH Hs Hne' t x).
+    change (ss_left (x :: y :: r) t) with (if x <? t then S (ss_left (y :: r) t) else O).
+    rewrite last_cons. destruct (x <? t) eqn:E.
+    + simpl length in *. rewrite <- IH. reflexivity.
+    + assert (x < last r y).
+      { pose proof (last_in r y) as Hin. rewrite Forall_forall in Hx. apply Hx. exact Hin. }
+      rewrite (last_cons r y x). simpl length. replace (t <=? last r y) with true by lia. reflexivity.
+Qed.
+
+Lemma combine_map_l {A B C} (f : A -> C) (a : list A) (b : list B) :
+  combine (map f a) b = map (fun p => (f (fst p), snd p)) (combine a b).
+Proof. revert b. induction a as [|x a IH]; intros [|y b]; simpl; try reflexivity. f_equal. apply IH. Qed.
+
+Section SelDv.
+Variable D : Z -> Z.
+Let dvof (tv : list (Z * Z)) := map (fun p => (D (fst p), snd p)) tv.
+Lemma sel_indump tv f k : (forall t, f t = (D t =? k)) -> sel f tv = indump k (dvof tv).
+Proof.
+  intro H. unfold sel, indump, dvof. induction tv as [|[t v] tv IH]; [reflexivity|]. simpl. rewrite H.
+  destruct (D t =? k); simpl; rewrite IH; reflexivity.
+Qed.
+Lemma sel_before tv f k : (forall t, f t = (D t <? k)) -> sel f tv = before k (dvof tv).
+Proof.
+  intro H. unfold sel, before, dvof. induction tv as [|[t v] tv IH]; [reflexivity|]. simpl. rewrite H.
+  destruct (D t <? k); simpl; rewrite IH; reflexivity.
+Qed.
+Lemma existsb_dv (tv : list (Z * Z)) f g : (forall t, f t = g (D t)) ->
+  existsb (fun p => f (fst p)) tv = existsb (fun p => g (fst p)) (dvof tv).
+Proof.
+  intro H. unfold dvof. induction tv as [|[t v] tv IH]; [reflexivity|]. simpl. rewrite H, IH. reflexivity.
+Qed.
+End SelDv.
+
+Lemma existsb_combine_l {B} (f : Z -> bool) (a : list Z) (b : list B) : length a = length b ->
+  existsb f a = existsb (fun p => f (fst p)) (combine a b).
+Proof. revert b. induction a as [|x a IH]; intros [|y b] H; simpl in *; try discriminate; [reflexivity|]. rewrite (IH b) by lia. reflexivity. Qed.
+
+Lemma nondecr_weaken y x (l : list (Z * Z)) : y <= x -> nondecr x l -> nondecr y l.
+Proof. destruct l; [auto|]. intros H [H1 H2]. split; [lia|exact H2]. Qed.
+
+Lemma dv_nondecr a (ts : list Z) : forall (tvals : list Z) x, nondecrZ x ts ->
+  nondecr (Dmap a x) (combine (map (Dmap a) ts) tvals).
+Proof.
+  induction ts as [|t r IH]; intros tvals x H; [exact Logic.I|]. destruct tvals as [|v vr]; [exact Logic.I|].
+  destruct H as [H1 H2]. simpl. split.
+  - unfold Dmap. pose proof (ss_left_mono a x t H1). lia.
+  - apply IH. exact H2.
+Qed.
+
+Lemma map_nth_error_ext {A B} (F : A -> B) (G : nat -> B) (l : list A) : forall s,
+  (forall k x, nth_error l k = Some x -> F x = G (s + k)%nat) -> map F l = map G (seq s (length l)).
+Proof.
+  induction l as [|a l IH]; intros s H; [reflexivity|]. simpl. f_equal.
+  - rewrite (H O a eq_refl). f_equal. lia.
+  - apply IH. intros k x Hk. rewrite (H (S k) x Hk). f_equal. lia.
+Qed.
+(* ====================================================================================
+   Part F.  Composition: sensor_to_categorical satisfies the per-dump rule over times.
+   ==================================================================================== *)
+Definition time_sorted (ts : list Z) : Prop := nondecrZ (hd 0 ts) ts.
+
+Lemma per_dump_coded ts vals e0 er P tr init greedy ar :
+  let ends := e0 :: er in
+  ssorted ends -> 0 < P -> time_sorted ts -> length ts = length vals ->
+  per_dump ts vals ends P tr init greedy ar =
+    match spec_per_dump ts vals ends P tr (init_as_coded ts ends P init) greedy with
+    | Some l => Ok l | None => Err end
+  /\ forall v e, s2c ts vals ends P tr init greedy ar = Ok (v, e) ->
+       wf_result v e (Z.of_nat (length ends)) ar.
+Proof.
+  intros ends Hse HP Hts Hlen.
+  set (N := Z.of_nat (length ends)).
+  set (a := (e0 - P) :: ends).
+  set (tvals := map (app_tr tr) vals).
+  set (tv := combine ts tvals).
+  set (dv := combine (map (Dmap a) ts) tvals).
+  set (isg := fun v => memZ v greedy).
+  assert (HN : 0 < N) by (unfold N, ends; simpl length; lia).
+  assert (Hsa : ssorted a).
+  { unfold a. split; [|exact Hse]. unfold ends in *. destruct Hse as [Hf _].
+    constructor; [lia|]. eapply Forall_imp2; [|exact Hf]. simpl. intros. lia. }
+  assert (Hdvof : dv = map (fun p => (Dmap a (fst p), snd p)) tv) by (unfold dv, tv; apply combine_map_l).
+  assert (Hlen2 : length ts = length tvals) by (unfold tvals; rewrite map_length; exact Hlen).
+  (* sortedness and range of the dump indices *)
+  assert (Hnd : nondecr (-1) dv).
+  { destruct ts as [|t0 r]; [exact Logic.I|].
+    apply nondecr_weaken with (x := Dmap a t0); [unfold Dmap; lia|].
+    unfold dv. apply (dv_nondecr a (t0 :: r) tvals t0). exact Hts. }
+  assert (HfN : Forall (fun p => fst p <= N) dv).
+  { rewrite Hdvof. apply Forall_map. apply Forall_forall. intros p _. simpl. unfold Dmap.
+    pose proof (ss_left_le a (fst p)). unfold a, N in *. simpl length in *. lia. }
+  (* start value *)
+  assert (Hst : start_value tv (init_as_coded ts ends P init) (last ends e0) = start_dv dv init N).
+  { unfold start_value, start_dv, init_dv, init_as_coded, ends.
+    assert (H1 : existsb (fun t => t <=? e0 - P) ts = existsb (fun p : Z * Z => fst p =? -1) dv).
+    { rewrite (existsb_combine_l _ ts tvals Hlen2). fold tv. rewrite Hdvof.
+      apply (existsb_dv (Dmap a) tv (fun t => t <=? e0 - P) (fun d => d =? -1)).
+      intro t. unfold Dmap, a. cbn [ss_left]. destruct (e0 - P <? t) eqn:E; lia. }
+    assert (H2 : existsb (fun t => (e0 - P <? t) && (t <=? e0)) ts = existsb (fun p : Z * Z => fst p =? 0) dv).
+    { rewrite (existsb_combine_l _ ts tvals Hlen2). fold tv. rewrite Hdvof.
+      apply (existsb_dv (Dmap a) tv (fun t => (e0 - P <? t) && (t <=? e0)) (fun d => d =? 0)).
+      intro t. unfold Dmap, a, ends. cbn [ss_left]. destruct (e0 - P <? t) eqn:E; destruct (e0 <? t) eqn:E'; cbn [andb]; lia. }
+    rewrite H1, H2.
+    assert (H3 : hd_error (sel (fun t => t <=? last (e0 :: er) e0) tv) =
+                 hd_error (map snd (filter (fun p : Z * Z => fst p <? N) dv))).
+    { f_equal. rewrite Hdvof. change (map snd (filter (fun p : Z * Z => fst p <? N) (map (fun p => (Dmap a (fst p), snd p)) tv)))
+        with (before N (map (fun p => (Dmap a (fst p), snd p)) tv)).
+      apply sel_before. intro t.
+      pose proof (ss_left_full a Hsa ltac:(discriminate) t 0) as Hf.
+      unfold a in Hf at 3. rewrite last_cons in Hf. fold ends in Hf.
+      assert (Hl : last (e0 :: er) e0 = last ends (e0 - P)) by (unfold ends; rewrite !last_cons; reflexivity).
+      rewrite Hl. rewrite <- Hf. unfold Dmap, N, a. simpl length.
+      destruct (ss_left ((e0 - P)%Z :: ends) t <? S (length ends))%nat eqn:E; lia. }
+    rewrite H3. reflexivity. }
+  (* per-dump values *)
+  assert (Hval : forall st, map (dump_value isg tv st) (combine a ends) = map (dvalue isg dv st) (zrange N)).
+  { intro st. unfold zrange, N. rewrite Nat2Z.id. rewrite map_map.
+    replace (length ends) with (length (combine a ends)) by (unfold a; rewrite combine_length; simpl length; lia).
+    apply map_nth_error_ext. intros k [lo hi] Hk. simpl plus.
+    pose proof (ss_pairs a Hsa k lo hi Hk) as Hp.
+    unfold dump_value, dvalue. rewrite Hdvof. f_equal. f_equal.
+    - f_equal. apply sel_before. intro t. destruct (Hp t) as [_ H2]. rewrite H2. unfold Dmap.
+      destruct (ss_left a t <=? k)%nat eqn:E; lia.
+    - apply sel_indump. intro t. destruct (Hp t) as [H1 _]. rewrite H1. unfold Dmap.
+      destruct (ss_left a t =? S k)%nat eqn:E; lia. }
+  pose proof (prep_kept ts vals e0 er P tr init Hlen) as Hprep. cbv zeta in Hprep.
+  fold ends a tvals dv N in Hprep.
+  pose proof (prep_sem isg dv N init Hnd HfN HN) as Hsem.
+  unfold per_dump, sensor_to_categorical, s2c, spec_per_dump. unfold ends. lazy iota beta.
+  fold ends. fold a. fold tvals. fold tv. fold N. fold isg.
+  rewrite Hst, Hprep.
+  destruct (start_dv dv init N) as [st|].
+  - destruct Hsem as [d0 [v0 [l [HK [Hnl [Hfl Hiv]]]]]]. rewrite HK.
+    pose proof (tail_rule greedy ar v0 l N Hnl Hfl) as HT. cbv zeta in HT. fold isg in HT.
+    destruct (s2c_tail (v0 :: map snd l) (0 :: map fst l) N greedy ar) as [v e] eqn:Ete.
+    simpl fst in HT. simpl snd in HT. destruct HT as [HT1 HT2]. split.
+    + rewrite HT1, Hval. f_equal. apply map_ext_in. intros k Hk. apply Hiv. apply zrange_bounds. exact Hk.
+    + intros v' e' Heq. inversion Heq; subst. exact HT2.
+  - rewrite Hsem. split; [reflexivity|]. intros v e Heq. discriminate.
+Qed.
+
+Lemma opt_eqb_eq a b : opt_eqb a b = true -> a = b.
+Proof. destruct a, b; simpl; intro H; try discriminate; [f_equal; lia|reflexivity]. Qed.
+
+Lemma per_dump_guarded ts vals e0 er P tr init greedy ar :
+  let ends := e0 :: er in
+  ssorted ends -> 0 < P -> time_sorted ts -> length ts = length vals ->
+  c10_guard ts ends P init = true ->
+  per_dump ts vals ends P tr init greedy ar =
+    match spec_per_dump ts vals ends P tr init greedy with Some l => Ok l | None => Err end.
+Proof.
+  intros ends Hs HP Ht Hl Hg. apply opt_eqb_eq in Hg.
+  destruct (per_dump_coded ts vals e0 er P tr init greedy ar Hs HP Ht Hl) as [H _].
+  fold ends in H. rewrite Hg in H. exact H.
+Qed.
+
+(* the guard is satisfiable and the statement discriminates: prior event b, then g (greedy) and a inside dump 1,
+   h on the edge of dump 2, late event ignored, plain initial value unused because of the prior event *)
+Example per_dump_guard_example :
+  let ts := [-5; 1; 2; 4; 9] in let vals := [2; 3; 1; 4; 2] in let ends := [0; 2; 4] in
+  ssorted ends /\ time_sorted ts /\ c10_guard ts ends 2 (Some 5) = true /\
+  per_dump ts vals ends 2 None (Some 5) [3] false = Ok [2; 3; 4] /\
+  spec_per_dump ts vals ends 2 None (Some 5) [3] = Some [2; 3; 4].
+Proof. vm_compute. repeat split; try lia; repeat constructor; try lia; intro; discriminate. Qed.
